@@ -4,7 +4,7 @@ set -e
 cd "$(dirname "$0")"
 export CARGO_NET_OFFLINE=true
 python3 tools/translator.py
-tools/coqbuild.sh > work_setup_coq.log 2>&1 || { tail -40 work_setup_coq.log; echo "coq build failed"; exit 1; }
+COQ_KEEP_GOING=1 tools/coqbuild.sh > work_setup_coq.log 2>&1 || { tail -40 work_setup_coq.log; echo "coq build had failures (each check rebuilds its own cone)"; }
 cp /repo/Cargo.lock harness/Cargo.lock
 (cd harness && cargo build --release --offline --bins 2>&1 | tail -3)
 echo setup-ok
